@@ -638,7 +638,7 @@ def judge(case, impl, model):
     else:
         got = norm_schema(impl["back"])
         got_defs = {n: norm_schema(d) for n, d in impl["backDefs"].items()}
-    if phase_m == "ok" and "back" in model and not unfaithful:
+    if phase_m == "ok" and "back" in model and not unfaithful and "collapse-after-required-mutation" not in issues:
         mback = norm_schema(unwire_schema(model["back"]))
         mdefs = {n: norm_schema(unwire_schema(d)) for n, d in model.get("defBacks", [])
                  if n in reachable_defs(schema, defs)}
